@@ -11,8 +11,8 @@
 From Coq Require Import List ZArith QArith Qcanon Lia Bool Ring Field.
 From Inovesa Require Import Base.FieldKit Base.Sums Base.Float32 Gen.Gen_Coeffs Gen.Gen_FPStencil Model.Kick Model.RF
   Model.FokkerPlanck Model.StepKinds Gen.Gen_StepOrder Model.RunKinds Gen.Gen_WakeUpdate Gen.Gen_Identity
-  Model.WakeUpdate Model.Run Proofs.WeightsP Proofs.KickP Proofs.KickGridP Proofs.RFP Proofs.FPGridP
-  Proofs.WakeUpdateP.
+  Model.Copy Model.WakeUpdate Model.Run Proofs.WeightsP Proofs.KickP Proofs.KickGridP Proofs.RFP Proofs.FPGridP
+  Proofs.CopyP Proofs.WakeUpdateP.
 Import ListNotations.
 Local Open Scope Z_scope.
 
@@ -339,22 +339,6 @@ Proof.
   intros Hn Hb Hi. rewrite !ident_apply_spec. rewrite !in_rng_true by nia. reflexivity.
 Qed.
 
-Lemma ident_copies nb n (D old : Z -> Qc) i :
-  0 <= i < nb * n * n -> ident_apply nb n n D old i = D i.
-Proof. intros Hi. rewrite ident_apply_spec, in_rng_true by exact Hi. reflexivity. Qed.
-
-Lemma ident_leaves_rest nb n (D old : Z -> Qc) i :
-  i < 0 \/ nb * n * n <= i -> ident_apply nb n n D old i = old i.
-Proof. intros Hi. rewrite ident_apply_spec, in_rng_false by exact Hi. reflexivity. Qed.
-
-Lemma ident_conserves_grid nb n (D old : Z -> Qc) :
-  sumQ 0 (Z.to_nat (nb * n * n)) (ident_apply nb n n D old) = sumQ 0 (Z.to_nat (nb * n * n)) D.
-Proof.
-  apply (sumZ_ext QcF). intros i Hi. apply ident_copies.
-  destruct (Z.le_gt_cases 0 (nb * n * n)); [rewrite Z2Nat.id in Hi by assumption; lia|].
-  replace (Z.to_nat (nb * n * n)) with 0%nat in Hi by lia. cbn in Hi. lia.
-Qed.
-
 (** ** the list front-end computes the run *)
 Lemma getQ_grid_list nb n G i : 0 <= i < nb * n * n -> getQ (grid_list nb n G) i = G i.
 Proof.
@@ -377,15 +361,43 @@ Section ListRun.
   Hypothesis Hn : 0 < n.
   Hypothesis Hfp : fp_inside P.
 
+  Lemma getH_map (T : Z -> Z * Qc) m k : 0 <= k < m -> getH (map T (zrange m)) k = T k.
+  Proof.
+    intros Hk. unfold getH. replace (0 <=? k) with true by (symmetry; apply Z.leb_le; lia).
+    unfold zrange. rewrite map_map.
+    rewrite nth_indep with (d' := T (Z.of_nat 0)) by (rewrite map_length, seq_length; lia).
+    rewrite (map_nth (fun j => T (Z.of_nat j)) (seq 0 (Z.to_nat m)) 0%nat).
+    rewrite seq_nth by lia. f_equal. lia.
+  Qed.
+
+  Lemma apply_smap_list_correct nb wk m data D :
+    all_agree n nb (getQ data) D ->
+    all_agree n nb (getQ (apply_smap_list P nb wk m data)) (apply_smap P nb wk m D).
+  Proof.
+    intros A b Hb. destruct (valid_it_range (rp_it P) Hv) as [Hi _].
+    assert (G : agree n b (apply_smap P nb wk m (getQ data)) b (apply_smap P nb wk m D)).
+    { apply smap_agree; try assumption; [apply wk_agree_refl | apply A; exact Hb]. }
+    assert (Other : forall m', agree n b (getQ (grid_list nb n (apply_smap P nb wk m' (getQ data)))) b (apply_smap P nb wk m' (getQ data))).
+    { intros m'. apply (all_agree_grid_list n nb _ Hn b Hb). }
+    unfold apply_smap_list. fold n.
+    destruct m; try (eapply agree_trans; [apply Other | exact G]).
+    destruct wk as [wp|]; [|eapply agree_trans; [apply Other | exact G]].
+    cbv zeta.
+    apply agree_trans with (b' := b) (D' := apply_y n nb (rp_it P)
+                                              (getH (map (wake_table n nb (rp_it P) wp) (zrange (nb * n * rp_it P)))) (getQ data)).
+    - apply (all_agree_grid_list n nb _ Hn b Hb).
+    - apply agree_trans with (b' := b) (D' := apply_smap P nb (Some wp) MWake (getQ data)); [|exact G].
+      unfold apply_smap. fold n. apply ykick_agree; try lia; [|apply agree_refl].
+      intros x j Hx Hj. apply getH_map. rewrite hidx_y_own by exact Hb.
+      assert (0 <= b * n + x < nb * n) by nia. nia.
+  Qed.
+
   Lemma apply_maps_list_correct nb wk order : forall data D,
     all_agree n nb (getQ data) D ->
     all_agree n nb (getQ (apply_maps_list P nb wk order data)) (apply_maps P nb wk order D).
   Proof.
     unfold apply_maps_list, apply_maps. induction order as [|m rest IH]; intros data D A; cbn [fold_left]; [exact A|].
-    apply IH. intros b Hb.
-    apply agree_trans with (b' := b) (D' := apply_smap P nb wk m (getQ data)).
-    - apply (all_agree_grid_list n nb _ Hn b Hb).
-    - apply smap_agree; try assumption; [apply wk_agree_refl | apply A; exact Hb].
+    apply IH. apply apply_smap_list_correct. exact A.
   Qed.
 
   (** [run_list] consumes the wake slots front to back: it is [run] with [wks j] = the j-th slot *)
